@@ -187,6 +187,34 @@ ALL_OR_NOTHING = [
 ]
 
 
+def _mk_ctx_variant(which, adjust, assoc):
+    def call(p, tr):
+        handle = {'none': None, 'existing': _pat_handle(p), 'new': 'verif.new.ctx'}[which]
+        tr.mk_context_state(A.PAT, handle, adjust_state_version=adjust, set_associated=assoc)
+    return call
+
+
+def _add_state_variant(dup, adjust):
+    def call(p, tr):
+        st = _dup_context_state(p)
+        if not dup:
+            st.Handle = 'verif.new.ctx'
+        tr.add_state(st, adjust_state_version=adjust)
+    return call
+
+
+# every keyword combination of the two calls that create context states
+for _which in ('none', 'existing', 'new'):
+    for _adjust in (True, False):
+        for _assoc in (False, True):
+            ALL_OR_NOTHING.append((f'context:mk_context_state(handle={_which},adjust={_adjust},associated={_assoc})',
+                                   'context_state_transaction', _mk_ctx_variant(_which, _adjust, _assoc)))
+for _dup in (True, False):
+    for _adjust in (True, False):
+        ALL_OR_NOTHING.append((f'context:add_state(duplicate={_dup},adjust={_adjust})', 'context_state_transaction',
+                               _add_state_variant(_dup, _adjust)))
+
+
 def _dup_context_state(p):
     old = p.mdib.context_states.handle.get_one(_pat_handle(p))
     st = p.mdib.data_model.mk_state_container(p.mdib.descriptions.handle.get_one(A.PAT))
@@ -195,8 +223,18 @@ def _dup_context_state(p):
 
 
 # ------------------------------------------------------------------ helpers
-def _build():
-    walk = mdibwalk.Walk(with_consumer=False)
+def _periodic_store(p):
+    """Canonical content of what the provider retains for its periodic reports (published content of earlier commits)."""
+    handler = p._periodic_reports_handler
+    out = []
+    for attr in sorted(a for a in vars(handler) if a.startswith('_periodic_') and a.endswith('reports')):
+        for entry in getattr(handler, attr, []):
+            out.append((attr, getattr(entry, 'mdib_version', None), tuple(canon.canon_obj(st) for st in getattr(entry, 'states', []))))
+    return out
+
+
+def _build(periodic=False):
+    walk = mdibwalk.Walk(with_consumer=False, provider_kwargs={'periodic_reports_interval': 1.0} if periodic else None)
     for name in PRE:
         A.apply(walk.provider, name)
     world.ENV.now += 5
@@ -511,13 +549,19 @@ def run_isolation(case, walk=None):
         done = mutate(obj, path, kind)
         return done, _same(before, _snap(p), p), walk
     if mode == 'transaction-result':
+        if walk is None or True:
+            walk = _build(periodic=True)      # with periodic reports on: the provider retains the committed states for them
+            p = walk.provider
         RESULT_TX[gname](p)
         tx = walk._tx[-1]
         before = _snap(p)
+        retained = _periodic_store(p)
         obj = _result_lists(tx)[oi[0]][oi[1]]
         pub_before = canon.canon_obj(obj)
         done = mutate(obj, path, kind)
         d = _same(before, _snap(p), p)
+        if _periodic_store(p) != retained:
+            d.append('writing to a transaction result changed the states retained for the periodic reports of that commit')
         # the other direction: a later commit must not change what this result published
         if not d:
             obj2 = _result_lists(tx)[oi[0]][oi[1]]
